@@ -34,8 +34,7 @@ ASSUMPTIONS = c06.ASSUMPTIONS + ["feature table per format taken from docs/forma
                                  "after the step) for ARXML, XLS and KCD, whose files describe receivers and senders per listed ECU (KCD: a Consumer refers to the Node element "
                                  "of a listed ECU); DBC, DBF, JSON and SYM are also given ECUs that are named by a signal or frame only",
                                  "histories, origin `same` (second round trip): not for SYM matrices with a multiplexer (the SYM reader repeats the static signals per "
-                                 "group, the judge addresses the signals of a frame by name); origin `dbc` not for DBF matrices that use an identifier number in both "
-                                 "formats (finding of the strengthening round: the references of a DBF file carry the number without the format)"]
+                                 "group, the judge addresses the signals of a frame by name)"]
 TRUSTED = c06.TRUSTED
 CORRESPONDENCE = "type words and re-read signal types == Model/Fields.lean kernels; features compared by the Lean Spec table"
 
@@ -99,12 +98,6 @@ def gen_history(rng, desc, fmt):
         # the SYM reader repeats the static signals of a multiplexed message in every group (by design, see ASSUMPTIONS): the frame it
         # returns has several signals of one name, and the judge addresses the signals of a frame by their names
         origins = [o for o in origins if o != "same"]
-    if fmt == "dbf" and any(f["id"] == g["id"] and f["ext"] != g["ext"] for f in frames for g in frames):
-        # kept out of the generated stream for now (genuine defect of the unchanged code, reported by the strengthening round): the matrix the
-        # DBC reader returns has signal attributes (GenSigStartValue); the DBF writer refers to their frame by the identifier number alone
-        # (`2047,S,g2_1,...` for standard and extended alike), dbf.load looks the number up in both formats, finds the other frame first and
-        # raises AttributeError ('NoneType' object has no attribute 'add_attribute')
-        origins = [o for o in origins if o != "dbc"]
     origin = rng.choice(origins)
     listed = list(desc["ecus"])
     tx = [list(f["transmitters"]) for f in frames]
